@@ -1,6 +1,7 @@
 package props
 
 import (
+	"strings"
 	"go/token"
 	"go/types"
 
@@ -397,6 +398,52 @@ func runC11(c *Ctx) {
 			c.R.Bad(rule, core.FuncName(hc), cfg, p.Pos(hc.Pos()), "the health check is not driven from a loop around a select: it does not run periodically")
 			return
 		}
+		// the driver is started on every successful construction of a pool
+		started := 0
+		for _, fn := range p.Funcs() {
+			if fn.Pkg == nil || fn.Pkg.Pkg.Path() != core.PkgPool || fn.Blocks == nil {
+				continue
+			}
+			isStart := func(in ssa.Instruction) bool {
+				g, ok := in.(*ssa.Go)
+				if !ok {
+					return false
+				}
+				if sf := core.StaticFn(g); sf == drv {
+					return true
+				}
+				if mc, ok := g.Call.Value.(*ssa.MakeClosure); ok {
+					if bf, ok := mc.Fn.(*ssa.Function); ok && (bf == drv || core.StaticReach(bf, 1)[drv]) {
+						return true
+					}
+				}
+				return false
+			}
+			has := false
+			for _, b := range fn.Blocks {
+				for _, in := range b.Instrs {
+					if isStart(in) {
+						has = true
+					}
+				}
+			}
+			if !has {
+				continue
+			}
+			started++
+			w := core.ReachAvoiding(core.Entry(fn), func(in ssa.Instruction) bool {
+				r, ok := in.(*ssa.Return)
+				return ok && defaultSuccess(fn, r)
+			}, isStart, nil)
+			if len(w) > 0 {
+				c.R.Bad(rule, core.FuncName(fn)+"/started", cfg, p.Pos(w[0].At.Pos()), "a pool can be constructed successfully without its health-check goroutine being started: idle time, lifetime and MinConns are never enforced for it", p.TrailString(w[0])...)
+			} else {
+				c.R.Ok(rule, core.FuncName(fn)+"/started", cfg, p.Pos(fn.Pos()), "every success exit starts the health check")
+			}
+		}
+		if started == 0 {
+			c.R.Bad(rule, core.FuncName(drv)+"/started", cfg, p.Pos(drv.Pos()), "the health-check driver is never started with `go`")
+		}
 		key := core.FuncName(drv)
 		timeField := func(v ssa.Value) (string, ssa.Value) {
 			u, ok := v.(*ssa.UnOp)
@@ -452,6 +499,8 @@ func runC11(c *Ctx) {
 			}
 		}
 	}()
+
+	ruleConnChannel(c, p, "C11.conn-channel")
 
 	// ---- C11.factory
 	rule = "C11.factory"
@@ -690,4 +739,64 @@ func indexIn(in ssa.Instruction) int {
 		}
 	}
 	return -1
+}
+
+// ---- conn-channel (C11 / C13): a connection never changes hands through a channel
+// connSends lists the channel sends in fn whose element carries a net.Conn (the interface itself,
+// or a struct with such a field).
+func connSends(fn *ssa.Function) []ssa.Instruction {
+	var out []ssa.Instruction
+	carries := func(t types.Type) bool {
+		if core.IsNamed(t, "net", "Conn") {
+			return true
+		}
+		if st, ok := t.Underlying().(*types.Struct); ok {
+			for i := 0; i < st.NumFields(); i++ {
+				ft := st.Field(i).Type()
+				if core.IsNamed(ft, "net", "Conn") || core.IsNamed(ft, core.PkgCh, "Client") {
+					return true
+				}
+				if pt, ok := ft.Underlying().(*types.Pointer); ok && core.IsNamed(pt.Elem(), core.PkgCh, "Client") {
+					return true
+				}
+			}
+		}
+		return false
+	}
+	for _, b := range fn.Blocks {
+		for _, in := range b.Instrs {
+			switch x := in.(type) {
+			case *ssa.Send:
+				if carries(x.X.Type()) {
+					out = append(out, in)
+				}
+			case *ssa.Select:
+				for _, st := range x.States {
+					if st.Dir == types.SendOnly && st.Send != nil && carries(st.Send.Type()) {
+						out = append(out, in)
+					}
+				}
+			}
+		}
+	}
+	return out
+}
+
+func ruleConnChannel(c *Ctx, p *core.Program, rule string) {
+	c.R.Rule(rule, "ownership of a dialed connection stays on one call stack: in packages ch and chpool no channel send carries a net.Conn or a *ch.Client (directly or as a struct field). A connection handed from a dialing goroutine to its caller through a channel is lost whenever the caller stops waiting first (context done): nobody closes it, and a pool that has been closed still has an open socket")
+	cfg := p.Cfg.Name
+	n := 0
+	for _, fn := range p.Funcs() {
+		pk := pkgOf(fn)
+		if pk == nil || (pk.Path() != core.PkgCh && pk.Path() != core.PkgPool) || fn.Blocks == nil || isServerSide(fn) || strings.HasPrefix(fn.Name(), "verifFixture") {
+			continue
+		}
+		for i, in := range connSends(fn) {
+			n++
+			c.R.Bad(rule, sprintf("%s/send#%d", core.FuncName(fn), i+1), cfg, p.Pos(in.Pos()), "a connection is sent over a channel: if the receiver has stopped waiting (its context ended) the connection is never closed")
+		}
+	}
+	if n == 0 {
+		c.R.Ok(rule, "ch+chpool", cfg, "", "no channel send carries a connection")
+	}
 }
